@@ -44,6 +44,29 @@ def snapOf (j : Json) : Except String (List Spec.FrameSnap) := do
   (← J.arr j).mapM fun f => do
     pure { handle := ← J.nat (← J.idx f 0), name := ← J.str (← J.idx f 1), id := ← J.nat (← J.idx f 2), ext := ← J.bool (← J.idx f 3) }
 
+def editOf (o : LOp) (out : Json) : Spec.Edit :=
+  match o with
+  | .newFrame name id ext =>
+    match out.getObjVal? "h" with
+    | .ok (.num n) => .create n.mantissa.toNat name id ext
+    | _ => .none
+  | .setId h id ext => .setId h id ext
+  | .renameFrame _ old new => .rename old new
+  | _ => .none
+
+/-- the independence clause over a whole history: `none` when every snapshot agrees with what the
+frames' own histories say -/
+def independent (triples : List (LOp × Json × Json)) : Except String Bool := do
+  let mut ks : List Spec.Known := []
+  let mut ok := true
+  for (o, out, snap) in triples do
+    ks := Spec.noteEdit ks (editOf o out)
+    if !J.isNull snap then
+      let sn ← snapOf snap
+      if !Spec.snapAgrees ks sn then ok := false
+      ks := Spec.noteSnap ks sn
+  pure ok
+
 def keyOf : LOp → Option Spec.Key
   | .byId _ id ext => some (.byId id ext)
   | .byName _ n => some (.byName n)
@@ -82,8 +105,10 @@ def handle (op : String) (c i : Json) : Except String (Json × String) := do
                 else some (match res with
                   | some _ => "fail: lookup returned a frame that is not in the matrix or does not carry the key"
                   | none => "fail: lookup returned nothing although a frame of the matrix carries the key"))
+    let indep ← independent triples
     pure (m, match bad with
-      | [] => "ok"
+      | [] => if indep then "ok" else
+          "fail: a frame of a matrix changed its identifier or name although no edit addressed that frame: the matrix shares state with another matrix"
       | b :: _ => b)
   | _ => throw s!"C10: unknown op {op}"
 
